@@ -22,9 +22,10 @@ VARIABLES l,      \* number of lines consumed
           gs,     \* cache key -> ghost
           xs,     \* cache key -> expected statistics [h, m] since the last reset of that cache
           usedK,  \* cache keys (global / async) whose function has been called
-          pm      \* cacheName -> registered invalidation metadata (process wide)
+          pm,     \* cacheName -> registered invalidation metadata (process wide)
+          probe   \* TRUE while replaying the sequential probe that follows a concurrent section
 
-tvars == <<l, cfgs, metas, gs, xs, usedK, pm>>
+tvars == <<l, cfgs, metas, gs, xs, usedK, pm, probe>>
 
 \* IF-THEN-ELSE, not a disjunction: TLC would explore both disjuncts of an action-level "\/"
 Check(ok, kind, id, line) == IF ok THEN TRUE ELSE PrintT(<<kind, id, line>>)
@@ -40,6 +41,12 @@ SpecStep(cfg, meta, pre, e, post) ==
     [] e.op = "noins" -> post = pre /\ ~e.panic
     [] OTHER -> TRUE
 
+ConcFails(r) ==
+  CASE r.ev = "quiesce"  -> QuiesceFails(r, r.cfgs, r.metas)
+    [] r.ev = "deadlock" -> IF GenuineDeadlock(r) THEN {"C17"} ELSE {"bogus-deadlock-report"}
+    [] r.ev = "hang"     -> {"C17"}
+    [] OTHER -> {}
+
 InitFrom(r) ==
   /\ cfgs = r.cfgs
   /\ metas = r.metas
@@ -47,15 +54,16 @@ InitFrom(r) ==
   /\ xs = [n \in DOMAIN r.sts |-> X0]
   /\ usedK = {n \in DOMAIN r.metas : r.metas[n].warm /\ r.metas[n].kind # "thread"}
   /\ pm = r.pmetas
+  /\ probe = FALSE
 
-Init == /\ l = 1
-        /\ Rec[1].ev = "reset"
-        /\ InitFrom(Rec[1])
+Init == /\ l = 0
+        /\ cfgs = <<>> /\ metas = <<>> /\ gs = <<>> /\ xs = <<>> /\ usedK = {} /\ pm = <<>>
+        /\ probe = FALSE
 
 Consume ==
   /\ l < Len(Rec)
   /\ LET r == Rec[l + 1]
-         prev == Rec[l]
+         prev == IF l = 0 THEN r ELSE Rec[l]
          line == l + 1
      IN
      IF r.ev = "reset"
@@ -64,6 +72,17 @@ Consume ==
           /\ xs' = [n \in DOMAIN r.sts |-> X0]
           /\ usedK' = {n \in DOMAIN r.metas : r.metas[n].warm /\ r.metas[n].kind # "thread"}
           /\ pm' = r.pmetas
+          /\ probe' = FALSE
+     ELSE IF r.ev \in {"quiesce", "deadlock", "hang"}
+     THEN /\ \A id \in ConcFails(r) : PrintT(<<"FAIL", id, line>>)
+          /\ IF r.ev = "quiesce"
+             THEN /\ cfgs' = r.cfgs /\ metas' = r.metas
+                  /\ gs' = [n \in DOMAIN r.sts |-> GhostOf(r.sts[n])]
+                  /\ xs' = [n \in DOMAIN r.sts |-> [h |-> r.sts[n].hitsS, m |-> r.sts[n].missS]]
+                  /\ usedK' = {n \in DOMAIN r.metas : r.metas[n].kind # "thread"}
+                  /\ pm' = r.pmetas
+                  /\ probe' = TRUE
+             ELSE UNCHANGED <<cfgs, metas, gs, xs, usedK, pm, probe>>
      ELSE /\ \A id \in RecordFails(r, cfgs, metas, gs, xs, usedK, pm, prev.sts, r.sts) :
                 PrintT(<<"FAIL", id, line>>)
           /\ r.ev \in CacheOps =>
@@ -77,7 +96,14 @@ Consume ==
           /\ xs' = XsNext(r, cfgs, metas, xs, usedK, prev.sts)
           /\ usedK' = UsedNext(r, metas, usedK)
           /\ pm' = PmNext(r, metas, pm)
-          /\ UNCHANGED <<cfgs, metas>>
+          \* C18: sequential use after a concurrent section respects the bounds and returns
+          \* correct values
+          /\ (probe /\ r.ev \in CacheOps) =>
+                Check(/\ WithinLimits(cfgs[r.n], r.sts[r.n])
+                      /\ ~r.panic
+                      /\ "C01" \notin RecordFails(r, cfgs, metas, gs, xs, usedK, pm, prev.sts, r.sts),
+                      "FAIL", "C18", line)
+          /\ UNCHANGED <<cfgs, metas, probe>>
   /\ l' = l + 1
 
 Next == Consume
